@@ -89,6 +89,12 @@ var verifC02Progs = [...]string{
 	`param (a, b); mk := func() { try { throw "t" } finally { a += 1 } }; g := func() { return "g" + string(a) }; try { mk() } catch e { }; return [g(), g()]`,
 	`param (a, b); d3 := func() { throw "d3" }; d2 := func() { return d3() + 1 }; d1 := func() { d2(); return 5 }; ok := func(x) { return x * 2 }; v := 0; try { v = d1() } catch e { v = -1 }; return [v, ok(a), ok(b)]`,
 	`param (a, b); var f; f = func(n, ...r) { if n == 0 { throw r }; f(n - 1, n, ...r) }; g := func(...r) { return r }; res := undefined; try { f(2) } catch e { res = e.Message }; return [res, g(a), g(a, b), g()]`,
+	// --- try, catch and finally share one scope (docs/error-handling.md): names
+	// declared in the try body - also names of builtins - are visible in the
+	// catch and finally blocks (63-65)
+	`param (a, b); r := []; try { len := func(x) { return 42 }; r = append(r, len("abc")); throw "x" } catch e { r = append(r, len("ab")) } finally { r = append(r, len("a")) }; return r`,
+	`param (a, b); try { string := func(x) { return a }; throw string(1) } catch e { return [e.Message, string(7)] } finally { a = 9 }`,
+	`param (a, b); res := 0; try { v := a + 1; if b > 2 { throw "t" }; res = v } catch e { res = v * 10; w := res + 1; res = w } finally { res += v }; return res`,
 }
 
 // VerifC02Prog: the compiled program behaves as the documented source-level
